@@ -93,6 +93,44 @@ def wiring(run):
     run.ob('wiring:positions-x-dialects', 'discharged' if not bad else 'counterexample', '%d renders, marker %r' % (len(DIALECTS) * len(positions), MARKER))
 
 
+T_TYPED = '''
+def typed_{d}(pos: int, k1: int, k2: int) -> int:
+    """
+    pre: 0 <= pos < {np} and 0 <= k1 < {nk} and 0 <= k2 < {nk}
+    post: _ == 0
+    """
+    return step(pos, k1, k2, {d})
+
+
+def typed_{d}_reach(pos: int, k1: int, k2: int) -> int:
+    """
+    pre: 0 <= pos < {np} and 0 <= k1 < {nk} and 0 <= k2 < {nk}
+    post: False
+    """
+    return step(pos, k1, k2, {d})
+'''
+
+
+def gen_typed():
+    from harness import c07lib
+    d = os.path.join(VERIF, '.scratch')
+    os.makedirs(d, exist_ok=True)
+    path = os.path.join(d, 'gen_ch_C07.py')
+    with open(path, 'w') as f:
+        f.write('from harness.c07lib import step\n')
+        for i in range(len(c07lib.DIALECTS)):
+            f.write(T_TYPED.format(d=i, np=len(c07lib.POSITIONS), nk=len(c07lib.KINDS)))
+    return path
+
+
+def r_typed(d):
+    def replay(args):
+        from harness import c07lib
+        pr, info = c07lib.leaf(int(args['pos']), int(args['k1']), int(args['k2']), d)
+        return bool(pr), dict(info, problems=pr[:3]), 'typed-constant:%s:%s:%s-%s' % (info['dialect'], info['position'], info['kinds'][0], info['kinds'][1]), (pr[0] if pr else '')
+    return replay
+
+
 def specs():
     return [
         dict(fn='lit_render', twin='lit_render_reach', replay=r_lit),
@@ -116,6 +154,10 @@ def run(tier):
                        'select-list labels (AS "<value>") are quoted by SQLAlchemy (trusted)',
                        'the postgres fallback path (str(ast).replace("`", "")) is covered by C17, not here']
     ch_obligations(run, HARNESS, specs(), cond_to=150 if tier == 'quick' else 900)
+    from harness import c07lib
+    ch_obligations(run, gen_typed(), [dict(fn='typed_%d' % i, twin='typed_%d_reach' % i, replay=r_typed(i), name='typed_constants[%s]' % c07lib.DIALECTS[i])
+                                      for i in range(len(c07lib.DIALECTS))], cond_to=200 if tier == 'quick' else 600, path_to=60)
+    run.bounds['typed_constants'] = {'positions': c07lib.POSITIONS, 'kinds': c07lib.KINDS, 'values_per_kind': {k: [repr(v) for v in vs] for k, vs in c07lib.VALUES.items()}}
     try:
         wiring(run)
     except Exception as e:  # noqa
